@@ -328,7 +328,7 @@ def s2_specs(ctx: Ctx) -> list[dict]:
 def tlc_data(ctx: Ctx, cases: list[dict], name: str) -> dict[int, set]:
     """Hand recorded cases to TLC (TimeGridData.tla); returns {id: set of failing clauses}."""
     verdicts: dict[int, set] = {}
-    chunk = 3000
+    chunk = 6000
     for c0 in range(0, len(cases), chunk):
         part = cases[c0:c0 + chunk]
         f = ctx.work / f"{name}_{c0}.json"
@@ -416,7 +416,7 @@ def run(ctx: Ctx) -> None:
     ctx.log(f"TLC code/exact: {r_exact['distinct']} states, {len(scenarios)} scenarios, violated={r_exact['violated']}")
 
     float_cex = {}
-    for inv in ["InvStrictlyIncreasing", "InvEndsAtD", "others"]:
+    for inv in ctx.pick(["InvStrictlyIncreasing", "InvEndsAtD"], ["InvStrictlyIncreasing", "InvEndsAtD", "others"]):
         r = run_tlc("MCTimeGrid", None, workdir=ctx.work, name=f"code_float_{inv}", workers=WORKERS,
                     cfg_text=cfg_text(ctx.pick("cScnTiny", "cScnSmall"), "cFloat", 1, "code", False,
                                       [inv] if inv != "others" else ["InvStartsAt0", "InvContainsMultiples", "InvContainsEvalTimes", "InvInsideSequence"]))
@@ -537,7 +537,7 @@ def run(ctx: Ctx) -> None:
     good = [info[c["id"]][0] for c in cases if not verdicts[c["id"]] and info[c["id"]][2] == "T_sd" and len(info[c["id"]][3]) <= 80]
     rng.shuffle(good)
     sspecs = []
-    for backend, cnt in (("sv", ctx.pick(120, 900)), ("mps", ctx.pick(16, 120)), ("dmrg", ctx.pick(6, 40))):
+    for backend, cnt in (("sv", ctx.pick(90, 900)), ("mps", ctx.pick(12, 120)), ("dmrg", ctx.pick(5, 40))):
         pool = [g for g in good if backend == "sv" or len(requested_union(g)) < 40]
         if backend != "sv":
             pool = [g for g in pool if g["D"] / g["dt"] <= 25]
